@@ -347,6 +347,11 @@ def main(out_path: str):
     parts.append(dict_ss("itemsetRefs", {"value": constants.EXTERNAL_CHOICES_ITEMSET_REF_VALUE, "label": constants.EXTERNAL_CHOICES_ITEMSET_REF_LABEL, "value_geojson": constants.EXTERNAL_CHOICES_ITEMSET_REF_VALUE_GEOJSON, "label_geojson": constants.EXTERNAL_CHOICES_ITEMSET_REF_LABEL_GEOJSON, "last_saved": utils.LAST_SAVED_INSTANCE_NAME}, "constants.EXTERNAL_CHOICES_ITEMSET_REF_* and utils.LAST_SAVED_INSTANCE_NAME"))
     parts += __import__("translate_entities").parts()  # C19: entity decision functions (AST → IR)
     parts.append(dict_ss("smartQuotes", x2j.SMART_QUOTES, "xls2json.SMART_QUOTES (clean_text_values)"))
+    # C20: expected columns of the survey / choices sheets (header_columns of dealias_and_group_headers)
+    parts += [
+        set_s("surveyHeaderColumns", question.MultipleChoiceQuestion.get_slot_names(), "MultipleChoiceQuestion.get_slot_names()"),
+        set_s("choicesHeaderColumns", question.Option.get_slot_names(), "Option.get_slot_names()"),
+    ]
     parts.append("end Pyxv.Gen\n")
     # several slices may ask for the same table: keep the first definition of each name
     seen, uniq = set(), []
